@@ -486,6 +486,47 @@ func sequenceCasesBody() (out []string) {
 	if fmt.Sprint(got) != fmt.Sprint(want) {
 		out = append(out, fmt.Sprintf("a sequence of publishes on one bus was recorded under the types %v, the events' type names are %v", got, want))
 	}
+	return append(out, sizesCase()...)
+}
+
+// Big is an event with a payload of a chosen size.
+type Big struct {
+	N    int
+	Body string
+}
+
+// sizesCase: payloads from a few bytes to ~100 KiB published one after the other on one
+// bus (and a second bus over a store of its own, so that anything shared process-wide is
+// shared); after *every* publish *every* record written so far is decoded again and
+// compared - a record must not change once it has been appended, whatever buffers the
+// encoding went through.
+func sizesCase() (out []string) {
+	sizes := []int{10, 20000, 20001, 300, 70000, 17000, 40000, 5, 33000, 100000, 16384, 65536, 20000}
+	type rec struct {
+		n    int
+		body string
+	}
+	stores := []*eventbus.MemoryStore{eventbus.NewMemoryStore(), eventbus.NewMemoryStore()}
+	buses := []*eventbus.EventBus{eventbus.New(eventbus.WithStore(stores[0])), eventbus.New(eventbus.WithStore(stores[1]))}
+	want := [2][]rec{}
+	for i, sz := range sizes {
+		b := i % 2
+		body := strings.Repeat(fmt.Sprintf("%04d-", i), sz/5+1)[:sz]
+		eventbus.Publish(buses[b], Big{N: i, Body: body})
+		want[b] = append(want[b], rec{i, body})
+		for k := range stores {
+			evs, _, err := stores[k].Read(context.Background(), eventbus.OffsetOldest, 0)
+			if err != nil || len(evs) != len(want[k]) {
+				return append(out, fmt.Sprintf("payload sizes: after %d publishes a store holds %d records (err %v), want %d", i+1, len(evs), err, len(want[k])))
+			}
+			for j, e := range evs {
+				var d Big
+				if err := json.Unmarshal(e.Data, &d); err != nil || d.N != want[k][j].n || d.Body != want[k][j].body {
+					return append(out, fmt.Sprintf("a record of a %d-byte payload, correct when it was appended, no longer decodes to the published value after later publishes (decode error: %v)", len(want[k][j].body), err != nil))
+				}
+			}
+		}
+	}
 	return out
 }
 
@@ -845,15 +886,19 @@ func run(c *h.Check) {
 		c.Note(fmt.Sprintf("%d configurations, %d context histories, %d values", len(cfgs), len(hists), len(vals)))
 		c.Count("evaluations", 2)
 		for _, m := range sequenceCases() {
-			c.Violate("sequence", "sequence on one bus: recorded type differs from the event's type name", m, map[string]any{"sequence": true})
+			sig := "sequence on one bus: recorded type differs from the event's type name"
+			if strings.Contains(m, "payload") {
+				sig = "sequence on one bus: a record changed after it was appended (payloads of 5 bytes to 100 KiB)"
+			}
+			c.Violate("sequence", sig, m, map[string]any{"sequence": true})
 		}
 		for _, m := range durableCases() {
 			c.Violate("durable", m, m, map[string]any{"durable": true})
 		}
 	}
-	bound := 2
+	bound := 3
 	if c.Thorough() {
-		bound = 3
+		bound = 4
 	}
 	for _, sc := range schedScenarios(c.Thorough()) {
 		c.Explore(sc, bound, 300000, false)
